@@ -7,7 +7,7 @@ tag=$$
 wt=/tmp/mc_repo_$tag; vc=/tmp/mc_verif_$tag
 git -C /repo worktree add -q --detach $wt HEAD || exit 2
 ( cd $wt && git apply "$patch" ) || { echo "PATCH DOES NOT APPLY"; git -C /repo worktree remove --force $wt; exit 2; }
-mkdir -p $vc && rsync -a --exclude .git --exclude 'build/run' --exclude replays /verif/ $vc/
+mkdir -p $vc && rsync -a --exclude .git --exclude build/run --exclude replays ${MC_SRC:-/verif}/ $vc/
 mkdir -p $vc/replays
 sed -i "s#=> /repo#=> $wt#" $vc/harness/go.mod
 rc=0
